@@ -52,16 +52,19 @@ type Fuzz struct {
 }
 
 type Plan struct {
-	Pkg         string
-	Level       string
-	Runs        []Run
-	Fuzz        []Fuzz // thorough only
+	Pkg   string
+	Level string
+	Runs  []Run
+	Fuzz  []Fuzz // thorough only
+	// TraceCases: every shard leaves the case it is evaluating behind, so that a process killed by a panic
+	// in a goroutine of the code under test (which no test can recover) is blamed on that case
+	TraceCases  bool
 	Tools       []string
 	Assumptions []string
 }
 
-func shards(q, t int) [2]int           { return [2]int{q, t} }
-func checks(q, t int) [2]int           { return [2]int{q, t} }
+func shards(q, t int) [2]int                  { return [2]int{q, t} }
+func checks(q, t int) [2]int                  { return [2]int{q, t} }
 func tmo(q, t time.Duration) [2]time.Duration { return [2]time.Duration{q, t} }
 
 type Known struct {
@@ -450,6 +453,9 @@ func main() {
 				if r.Race {
 					os.MkdirAll(sr.faildir, 0o755)
 					cmd.Env = append(cmd.Env, "GORACE=halt_on_error=1", "VERIF_CURRENT_CASE="+filepath.Join(sr.faildir, "current.case"))
+				} else if plan.TraceCases && !r.NoRapid {
+					os.MkdirAll(sr.faildir, 0o755)
+					cmd.Env = append(cmd.Env, "VERIF_CURRENT_CASE="+filepath.Join(sr.faildir, "current.case"))
 				}
 				cmd.WaitDelay = 5 * time.Second
 				out, err := cmd.CombinedOutput()
@@ -518,6 +524,30 @@ func main() {
 			os.Remove(filepath.Join(sr.faildir, "current.case"))
 			reportFailure(rp)
 			continue
+		}
+		if sr.exit != 0 && !sr.timedOut {
+			// a Go panic that killed the whole test process: it happened in a goroutine no test owns, i.e. in
+			// the code under test. The case that was running is the input.
+			if fails, _ := filepath.Glob(filepath.Join(sr.faildir, "*.json")); len(fails) == 0 {
+				so := "\n" + sr.out
+				if i := strings.Index(so, "\npanic: "); i >= 0 && strings.Contains(so[i:], "github.com/BondMachineHQ/BondMachine/") && !strings.Contains(so[i:], "panic: test timed out") {
+					if cur, err := os.ReadFile(filepath.Join(sr.faildir, "current.case")); err == nil {
+						var rf map[string]any
+						if json.Unmarshal(cur, &rf) == nil && rf != nil {
+							trace := so[i+1:]
+							first := strings.SplitN(trace, "\n", 2)[0]
+							frame := ""
+							if m := regexp.MustCompile(`(?m)^github\.com/BondMachineHQ/BondMachine/(\S+?)\(`).FindStringSubmatch(trace); m != nil {
+								frame = m[1]
+							}
+							msg := regexp.MustCompile(`0x[0-9a-f]+|\[[0-9]+\]|length [0-9]+`).ReplaceAllString(strings.TrimPrefix(first, "panic: "), "N")
+							rf["failure"] = map[string]any{"msg": "the test process was killed by a panic in a goroutine of the code under test while this case ran:\n" + firstLines(trace, 40), "sig": "crash:" + strings.ReplaceAll(msg, " ", "-") + "@" + frame}
+							b, _ := json.MarshalIndent(rf, "", " ")
+							os.WriteFile(filepath.Join(sr.faildir, "crash.json"), b, 0o644)
+						}
+					}
+				}
+			}
 		}
 		if sr.exit != 0 {
 			fails, _ := filepath.Glob(filepath.Join(sr.faildir, "*.json"))
